@@ -447,7 +447,41 @@ def split_std_groups(text):
     return "".join(out)
 
 
+def has_plain_static(text):
+    """a `static` item (outside thread_local!) that is not a LazyLock: state shared between threads whose
+    construction or use the library synchronises by hand (LazyLock keeps a value under construction
+    unreachable, so its initialiser needs no extra scheduling points)"""
+    t = re.sub(r"(?s)thread_local!\s*\{.*?\n\}", "", text)
+    for m in re.finditer(r"(?m)^\s*(?:pub(?:\([a-z]+\))?\s+)?static\s+(?:mut\s+)?[A-Za-z_][A-Za-z0-9_]*\s*:\s*([^=;]+)", t):
+        ty = m.group(1).strip()
+        if not re.match(r"(crate::vsync::|std::sync::)?LazyLock\s*<", ty):
+            return True
+    return False
+
+
+def loop_points(text):
+    """Files that declare process-wide state (`static` items): a scheduling point before every loop that is
+    a statement of a function body (not inside nested loops: one point per pass, not per element). Plain
+    memory has no scheduling points of its own; multi-pass construction of shared tables is where a second
+    thread can see or disturb a half-built state."""
+    out, n = [], 0
+    fn_indent = None
+    for line in text.split("\n"):
+        m = re.match(r"^(\s*)(pub(\([a-z]+\))?\s+)?(const\s+)?(unsafe\s+)?(extern\s+\"C\"\s+)?fn\s", line)
+        ind = len(line) - len(line.lstrip(" "))
+        if m and (fn_indent is None or ind <= fn_indent):
+            fn_indent = len(m.group(1))
+        elif fn_indent is not None and line.startswith(" " * fn_indent + "}") and ind == fn_indent:
+            fn_indent = None
+        elif fn_indent is not None and ind == fn_indent + 4 and re.match(r"^\s*('[a-z_]+:\s*)?(for|while|loop)\b", line):
+            out.append(" " * ind + "crate::vpoint::point();")
+            n += 1
+        out.append(line)
+    return "\n".join(out), n
+
+
 n_sync = 0
+n_loops = 0
 src = os.path.join(repo, "src")
 for root, dirs, files in os.walk(src):
     rel = os.path.relpath(root, src)
@@ -470,6 +504,9 @@ for root, dirs, files in os.walk(src):
             # `use std::{sync::X, ...}` style imports would escape the substitution: refuse loudly
             if re.search(r"use\s+std::\{[^}]*\b(sync|thread)\b", s):
                 sys.exit(f"port_conc: grouped std import of sync/thread in {f}: extend the port script")
+            if f != "verif_hooks.rs" and has_plain_static(s):
+                s, n_loop = loop_points(s)
+                n_loops += n_loop
             if f == "tables.rs":
                 # mark table initialisers (harness-side log of who initialised what, in which order)
                 s = re.sub(r"(fn (initialize_\w+)\([^)]*\)[^{]*\{\n)", lambda m: m.group(1) + f'    crate::vtrace::init_event("{m.group(2)}");\n', s)
@@ -509,4 +546,4 @@ lock = os.path.join(template, "Cargo.lock")
 if True:
     put(os.path.join(out, "Cargo.lock"), open(lock if os.path.exists(lock) else os.path.join(os.path.dirname(template), "Cargo.lock")).read())
 put(os.path.join(out, ".cargo", "config.toml"), "[net]\noffline = true\n")
-print(f"port_conc: ok ({n_sync} std::sync/std::thread references re-targeted)")
+print(f"port_conc: ok ({n_sync} std::sync/std::thread references re-targeted, {n_loops} loop-entry scheduling points in files with statics)")
